@@ -11,7 +11,7 @@ Rows == JsonDeserialize(IOEnv.VF_IN)
 VARIABLE i
 Init == i \in 1..Len(Rows)
 Next == UNCHANGED i
-W0(cs) == [P |-> <<<<>>>>, tip |-> [b \in cs \cup {"M"} |-> 1], bound |-> [c \in cs |-> TRUE], basis |-> [c \in cs |-> 1],
+W0(cs, bs) == [P |-> <<<<>>>>, tip |-> [b \in bs |-> 1], bound |-> [c \in cs |-> TRUE], basis |-> [c \in cs |-> 1],
            pend |-> [c \in cs |-> <<>>], lrevs |-> {}]
 RECURSIVE GraphAt(_, _)                 \* the observed graph after k steps
 GraphAt(impl, k) == IF k = 0 THEN <<<<>>>> ELSE GraphAt(impl, k - 1) \o impl[k + 1].np
@@ -19,7 +19,7 @@ RECURSIVE LocalAt(_, _, _)
 LocalAt(c, impl, k) ==
     IF k = 0 THEN {}
     ELSE LocalAt(c, impl, k - 1)
-         \cup (IF c.acts[k].op \in {"commitLocal", "commitUnbound"}
+         \cup (IF c.acts[k].op \in {"commitLocal", "commitUnbound", "commitF"}
                THEN (Len(GraphAt(impl, k - 1)) + 1)..Len(GraphAt(impl, k)) ELSE {})
 Seen(c, impl, k) == [P |-> GraphAt(impl, k), tip |-> impl[k + 1].tip, bound |-> impl[k + 1].bound,
                      basis |-> impl[k + 1].basis, pend |-> impl[k + 1].pend, lrevs |-> LocalAt(c, impl, k)]
@@ -27,7 +27,7 @@ FailedRow(c, impl) ==
     UNION {{<<n, c.acts[k].op>> : n \in StepFailed(Seen(c, impl, k - 1), c.acts[k], impl[k + 1].out, Seen(c, impl, k))}
            : k \in DOMAIN c.acts}
 DriftRow(c, impl) ==
-    LET r == Run(W0({x : x \in DOMAIN impl[1].bound}), c.acts)
+    LET r == Run(W0(DOMAIN impl[1].bound, DOMAIN impl[1].tip), c.acts)
     IN Len(impl) # Len(r) + 1
        \/ \E k \in DOMAIN r : r[k].out # impl[k + 1].out \/ r[k].W # Seen(c, impl, k)
 Bad == SelectSeq([k \in 1..Len(Rows) |->
